@@ -547,10 +547,14 @@ var profLevelInv = Profile{
 	Opt: func(t *rapid.T, o *OptPlan) {
 		o.CheckLevels = true
 		o.MemTableSize = rapid.SampledFrom([]int{4 << 10, 8 << 10}).Draw(t, "c15mem")
-		o.L0CompactionFiles = 500
-		o.LBaseMaxBytes = rapid.SampledFrom([]int64{256, 1 << 10}).Draw(t, "c15lbase")
 		o.TargetFileSize = rapid.SampledFrom([]int64{64, 256}).Draw(t, "c15tfs")
-		o.L0Compaction = rapid.IntRange(2, 4).Draw(t, "c15l0c")
+		if o.NumDel == 0 || rapid.Bool().Draw(t, "c15score") {
+			// score-based compactions dominate; otherwise the drawn "low priority"
+			// configuration (tombstone-density / read-triggered picks) is kept
+			o.L0CompactionFiles = 500
+			o.LBaseMaxBytes = rapid.SampledFrom([]int64{256, 1 << 10}).Draw(t, "c15lbase")
+			o.L0Compaction = rapid.IntRange(2, 4).Draw(t, "c15l0c")
+		}
 		o.ConcurrencyMax = rapid.IntRange(1, 4).Draw(t, "c15conc")
 		if o.FMV < int(pebble.FormatVirtualSSTables) && rapid.IntRange(0, 2).Draw(t, "c15fmv") > 0 {
 			o.FMV = int(pebble.FormatNewest)
